@@ -777,6 +777,10 @@ func (sc *specCtx) call(e *ast.CallExpr) Value {
 			fl := App("spec.flatlen_", SInt, lens, v.C[1], k)
 			// ground instance of lemma/flatlen_nonneg (induction over k from the slice length facts)
 			x.assumeTrue(Le(Num(0), fl))
+			if name == "flatlenk" {
+				// ground instance of lemma/flatlen_monotone: a prefix is no longer than the whole
+				x.assumeTrue(Implies(And(Le(Num(0), k), Le(k, v.C[2])), Le(fl, App("spec.flatlen_", SInt, lens, v.C[1], v.C[2]))))
+			}
 			return mInt(fl)
 		}
 		x.usedFuncs["flatat_"] = true
